@@ -412,7 +412,7 @@ LIB_META = {
             "corpus files, default and alternative option row); seeded: generated programs (also with a statement-aligned "
             "range) and corpus mutants under random configurations and their critical widths. Oracle: the checker's own full_moon parse of the output "
             "under the same syntax plus the checker's own lexer. Non-trivial = distinct (program, configuration, range) whose "
-            "output differs from the input and for which the formatter took at least one logical step."),
+            "output differs from the input and for which the formatter took at least one logical step. Added by the seeded rounds (all pinned unless said otherwise): comment pairs around one token (7 kinds), the empty-line enumeration (an empty line after token #k), CRLF variants of the enumerations, collapse templates with comments, sorted tiny programs, two-pass witnesses under the 5 call styles, own corpus files (lists, calls, strings, Luau types, Lua 5.4, unicode), and the seeded Luau type-language generator."),
     "C02": ("exploration", "Same workload as C01 (incl. the single-comment enumeration and degenerate programs) with sort_requires off. Oracles: semantic normal form N (generic AST "
             "traversal erasing only the permitted differences) of input vs output, and the own-lexer token stream. "
             "Non-trivial as for C01."),
@@ -420,29 +420,29 @@ LIB_META = {
             "contains; the single-comment enumeration; every corpus file rewritten with CRLF and mixed line endings). Oracle: own-lexer comment census (multiset of kind, level, text under the two permitted "
             "normalisations) plus token-stream equality (no code swallowed by a comment). Non-trivial as for C01."),
     "C06": ("exploration", "Corpus x option array x widths and critical widths, generated programs and mutants (seeded, "
-            "width >= 40). Oracle: byte equality of format(format(p)) and format(p). Non-trivial as for C01."),
+            "width >= 40); re-spaced canonical text (compact / wide) at every critical width, the block-comment and empty-line enumerations, require blocks, collapse templates with comments, the CRLF corpus (also LF text printed with Windows endings, so that pass 2 reads CRLF), two-pass witnesses under the 5 call styles. Oracle: byte equality of format(format(p)) and format(p). Non-trivial as for C01."),
     "C07": ("exploration", "C01's workload plus: every corpus file at column_width 1/2/3/usize::MAX and indent_width 1..16; hostile ranges "
             "(empty, inverted, beyond the end, usize::MAX, inside a multi-byte character); 16 collapse x ignore x comment templates x 4 "
             "collapse modes x 3 widths x every line-aligned range; nesting-depth ramps d=4..32 of 6 families judged by logical-step growth; "
             "pinned invalid inputs; seeded destroyed inputs (truncate / splice / delete token / junk; about 80 % invalid). The quick "
             "workload is repeated on a release+debug-assertions+overflow-checks build. Oracles: no unwind out of format_code (panic "
             "origin from the panic location), no worker abort (subprocess attribution), H1 tick budget 20000+400n+n^2 and growth bound, "
-            "accept/reject agreement with the checker's parser, own-lexer bracket balance on accepted inputs. Non-trivial as for C01."),
+            "accept/reject agreement with the checker's parser, own-lexer bracket balance on accepted inputs. Every third evaluation that returned Ok, and literal-only programs of every dialect, are repeated with OutputVerification::Full (no panic; no verification error on the literal programs); hostile and statement-aligned ranges are repeated with sort_requires on files with requires; the comment, comment-pair and empty-line enumerations run under the panic and step oracles. Non-trivial as for C01."),
     "C10": ("exploration", "Corpus (as is, and every file rewritten with CRLF and with mixed endings x Unix/Windows), degenerate programs and "
             "generated programs rendered with LF/CRLF/mixed endings and tab/space/mixed "
             "indentation x line_endings x indent_type x indent_width x widths. Oracle: byte-level line-ending, "
-            "indentation and end-of-file rules outside string contents (own lexer masks). Non-trivial as for C01."),
+            "indentation and end-of-file rules outside string contents (own lexer masks); the comment, comment-pair (with a Windows row) and empty-line enumerations, multi-line block comments written LF->Windows and CRLF->Unix. Non-trivial as for C01."),
 }
 
 LIB_META.update({
     "C04": ("exploration", "Pinned and exhaustive: every string body over the 17-symbol escape-relevant alphabet up to length 3 (quick) / 4 "
             "(thorough) plus lengths up to 5 / 6 over the 8 core symbols, in double-quoted, single-quoted and long-bracket (levels 0-2) "
             "form when full_moon accepts the literal, in 4 syntactic positions x 4 quote styles x 2 line endings (+ CRLF-written "
-            "programs); numeric spellings of every dialect in 6 contexts; seeded longer random bodies. Oracle: the checker's own string / "
+            "programs); numeric spellings of every dialect in 6 contexts (decimal grammar with zero runs, hexadecimal integers and fractions over the digits 0/5/e/E/a with binary exponents, Luau separators and binary, LuaJIT suffixes); an exotic alphabet (BOM, zero-width space, CR, CRLF, tab, NBSP) for the long forms; seeded longer random bodies. Oracle: the checker's own string / "
             "number decoders applied to the k-th literal of input and output. Non-trivial = distinct (batch program, configuration) whose "
             "output differs from the input; coverage counters give the number of literals judged and rewritten."),
     "C05": ("exploration", "Pinned and exhaustive small scope: templates (a o b) p c, a p (b o c), doubled parentheses, (u a) p b, a p (u b), "
-            "u(a o b), u(u a), truncation forms (f()), (...), prefix forms, Luau type assertions and if-expressions as operands, for every "
+            "u(a o b), u(u a), truncation forms (f()), (...), prefix forms, Luau type assertions and if-expressions as operands (also under a parenthesised unary operator), a doubled-pair variant of every template, for every "
             "pair of the 15 (+6 Lua 5.3) binary and 3-4 unary operators (depth 3 over one representative per precedence class in the "
             "thorough tier) x 15 expression contexts x short/long operands x 4 width classes (fits / hangs at top level / hangs at "
             "every level / 40). Oracle: normal form N (operator tree shape, truncation markers in multi-value positions) and re-parse. "
@@ -455,7 +455,7 @@ LIB_META.update({
     "C08": ("exploration", "Pinned: 14 statement kinds x {single, region, open region} directive x nesting depth 0-2 x 5 tails (none, `;`, ` ;`, "
             "`; -- c`, ` -- c`) x 4 following statements (plain, starts with `(`, none, return) x first/not first in block x widths x collapse "
             "modes, ignored table fields, the repository's ignore inputs; seeded: generated hostile programs with 1-3 directives inserted "
-            "before statements at any depth. Oracles: (1) the source slice of each model-ignored statement incl. its `;` occurs in the "
+            "before statements at any depth (1 in 4 with empty lines after the directive); pinned directive forms (directive as one line of a block comment, stray `ignore end`, empty lines between directive and node, another comment between); ranges and sort_requires over the same programs. Oracles: (1) the source slice of each model-ignored statement incl. its `;` occurs in the "
             "output in order; (2) every statement unrelated to an ignored one has the text it gets with the directives defused. "
             "Non-trivial as for C01; counters give ignored statements / comparisons made."),
     "C11": ("exploration", "Corpus x the 80 combinations of quote_style x call_parentheses x space_after_function_names (rotating) x widths, 12 "
@@ -466,7 +466,7 @@ LIB_META.update({
     "C12": ("exploration", "10 pinned programs (adjacent / blank-line separated / other statement between / mixed kinds / ignore region / single "
             "ignore / comments / two on a line / duplicate names / nested block) with sorting on and off and with ranges; every corpus file "
             "with sorting on and off; seeded require-heavy top levels (duplicate and mixed-case names, type assertions, string-call and "
-            "field forms, trailing comments, semicolons, two members on one line, multi-line members, blank lines, comment lines, ignore "
+            "field forms, trailing comments, semicolons, two members on one line, multi-line members, blank lines, line and block comment lines (with and without a following empty line), groups of 21-100 members, look-alike non-members, inline block comments and directives, ignore "
             "directives and regions, random ranges). Oracle: the sequence of per-statement normal forms of the output equals the "
             "independent model's sequence (groups, freezing, stable byte-wise sort); comment census unchanged. Non-trivial as for C01; "
             "counters give groups sorted / frozen."),
